@@ -25,6 +25,7 @@ CONSTANTS HInsts,      \* set of operator instances [op, g]
           MaxInner,    \* inner sources (<= 2)
           MaxSteps, MaxPerSrc,
           Cuts,        \* BOOLEAN: also enumerate an Unsubscribe at every position
+          SyncInner,   \* set of choices [j, k]: inner source j ends (k = "C" / "E") SYNCHRONOUSLY, inside its own subscription (j = 0: none)
           Tails        \* downstream stages placed after the operator: "none", "Take1", "Throw1" (MultiDef!TailCut)
 
 Mark(s, j) == IF s = 1 THEN <<"i10", "i11", "i12", "i13">>[j + 1] ELSE IF s = 2 THEN <<"i20", "i21", "i22", "i23">>[j + 1] ELSE <<"i30", "i31", "i32", "i33">>[j + 1]
@@ -34,6 +35,7 @@ Inner == 1..MaxInner
 Src(j) == j + 1           \* source index of inner j
 
 VARIABLES m, tail,
+          sync, synced,   \* the inner source that ends synchronously while being subscribed / its end has been played
           phase, closed, unsub, log, h, sent,
           ost,        \* outer source: "live" | "ended" (by itself) | "torn" (released by the operator)
           octx,       \* context of the outer completion (MergeAll completes with it)
@@ -43,7 +45,7 @@ VARIABLES m, tail,
           last, q,    \* CombineLatestAll / ZipAll: latest value / queue per inner
           blk         \* 0, or the inner source whose introducing outer notification is still in flight (ConcatAll / FlatMap)
 
-vars == <<m, tail, phase, closed, unsub, log, h, sent, ost, octx, intro, ist, nsub, last, q, blk>>
+vars == <<m, tail, sync, synced, phase, closed, unsub, log, h, sent, ost, octx, intro, ist, nsub, last, q, blk>>
 
 Concat == m.op = "ConcatAll"
 Collecting == m.op \in {"CombineLatestAll", "ZipAll"}
@@ -57,7 +59,7 @@ Obs(d, cl, o2, i2, n2, b2) ==
    blk |-> IF b2 = 0 THEN 0 ELSE 1]
 
 Init ==
-  /\ m \in HInsts /\ tail \in Tails
+  /\ m \in HInsts /\ tail \in Tails /\ sync \in SyncInner /\ synced = FALSE
   /\ phase = "new" /\ closed = FALSE /\ unsub = FALSE /\ log = <<>> /\ h = <<>>
   /\ sent = [s \in 1..3 |-> 0]
   /\ ost = "live" /\ octx = SubCtx /\ intro = 0
@@ -68,7 +70,7 @@ Init ==
 Subscribe ==
   /\ phase = "new" /\ phase' = "run"
   /\ h' = Append(h, [do |-> "sub", src |-> 0, n |-> C({}), exp |-> Obs(<<>>, FALSE, ost, ist, nsub, 0)])
-  /\ UNCHANGED <<m, tail, closed, unsub, log, sent, ost, octx, intro, ist, nsub, last, q, blk>>
+  /\ UNCHANGED <<m, tail, sync, synced, closed, unsub, log, sent, ost, octx, intro, ist, nsub, last, q, blk>>
 
 \* the output terminates (or the subscriber leaves): everything still subscribed is released, a blocked outer notification returns
 Release(o2, i2) == [o |-> IF o2 = "live" THEN "torn" ELSE o2, i |-> [j \in Inner |-> IF i2[j] = "live" THEN "torn" ELSE i2[j]]]
@@ -133,35 +135,56 @@ Apply(s, n, r) ==
      /\ log' = log \o tc.out
      /\ h' = Append(h, [do |-> "push", src |-> s, n |-> n, exp |-> Obs(tc.out, cl2, rel.o, rel.i, r.n, b2)])
      /\ sent' = [sent EXCEPT ![s] = @ + 1]
-     /\ UNCHANGED <<m, tail, phase, unsub>>
+     /\ UNCHANGED <<m, tail, sync, synced, phase, unsub>>
+
+\* The inner source `sync.j` ends inside its own subscription: its terminal is processed IN THE SAME harness step as the outer notification
+\* that made the operator subscribe it (the last entry of h is amended, not extended).  While this is pending nothing else may happen.
+SyncPending == sync.j # 0 /\ ~synced /\ nsub[sync.j] = 1
+SyncNotif == LET s == Src(sync.j) IN IF sync.k = "E" THEN E(s, SubCtx \cup {TMark(s)}) ELSE C(SubCtx \cup {TMark(s)})
+SyncEnd ==
+  /\ SyncPending
+  /\ LET r == InnerStep(sync.j, SyncNotif)
+         tc == TailCut(tail, r.out)
+         term == HasTerminal(tc.out)
+         rel == IF term THEN Release(r.o, r.i) ELSE [o |-> r.o, i |-> r.i]
+         b2 == IF term THEN 0 ELSE r.b
+         cl2 == closed \/ term
+         prev == h[Len(h)]
+     IN /\ ost' = rel.o /\ ist' = rel.i /\ nsub' = r.n /\ last' = r.last /\ q' = r.q /\ blk' = b2 /\ octx' = r.octx /\ intro' = r.intro
+        /\ closed' = cl2
+        /\ log' = log \o tc.out
+        /\ h' = [h EXCEPT ![Len(h)] = [prev EXCEPT !.exp = Obs(prev.exp.log \o tc.out, cl2, rel.o, rel.i, r.n, b2)]]
+  /\ synced' = TRUE
+  /\ sent' = [sent EXCEPT ![Src(sync.j)] = MaxPerSrc]       \* that source has said everything it had to say
+  /\ UNCHANGED <<m, tail, sync, phase, unsub>>
 
 PushOuter(n) ==
-  /\ phase = "run" /\ Len(h) <= MaxSteps /\ ost # "ended" /\ sent[1] < MaxPerSrc
+  /\ phase = "run" /\ ~SyncPending /\ Len(h) <= MaxSteps /\ ost # "ended" /\ sent[1] < MaxPerSrc
   /\ blk = 0                                  \* a producer whose notification has not returned cannot emit the next one
   /\ n.k = "N" => intro < MaxInner
   /\ Apply(1, n, OuterStep(n))
 
 PushInner(j, n) ==
-  /\ phase = "run" /\ Len(h) <= MaxSteps /\ ist[j] \in {"live", "torn"} /\ sent[Src(j)] < MaxPerSrc
+  /\ phase = "run" /\ ~SyncPending /\ Len(h) <= MaxSteps /\ ist[j] \in {"live", "torn"} /\ sent[Src(j)] < MaxPerSrc
   /\ Apply(Src(j), n, InnerStep(j, n))
 
 Unsub ==
-  /\ Cuts /\ phase = "run" /\ ~unsub /\ Len(h) <= MaxSteps
+  /\ Cuts /\ phase = "run" /\ ~SyncPending /\ ~unsub /\ Len(h) <= MaxSteps
   /\ LET rel == Release(ost, ist) IN
      /\ ost' = rel.o /\ ist' = rel.i /\ blk' = 0
      /\ h' = Append(h, [do |-> "unsub", src |-> 0, n |-> C({}), exp |-> Obs(<<>>, TRUE, rel.o, rel.i, nsub, 0)])
   /\ unsub' = TRUE /\ closed' = TRUE
-  /\ UNCHANGED <<m, tail, phase, log, sent, octx, intro, nsub, last, q>>
+  /\ UNCHANGED <<m, tail, sync, synced, phase, log, sent, octx, intro, nsub, last, q>>
 
 ONotifs == {N(intro + 1, SubCtx \cup {Mark(1, sent[1])}), E(1, SubCtx \cup {TMark(1)}), C(SubCtx \cup {TMark(1)})}
 INotifs(j) == LET s == Src(j) IN {N(10 * s + sent[s], SubCtx \cup {Mark(s, sent[s])}), E(s, SubCtx \cup {TMark(s)}), C(SubCtx \cup {TMark(s)})}
 
-Next == Subscribe \/ Unsub \/ (\E n \in ONotifs : PushOuter(n)) \/ (\E j \in Inner : \E n \in INotifs(j) : PushInner(j, n))
+Next == Subscribe \/ SyncEnd \/ Unsub \/ (\E n \in ONotifs : PushOuter(n)) \/ (\E j \in Inner : \E n \in INotifs(j) : PushInner(j, n))
 Spec == Init /\ [][Next]_vars
 
 NothingLeft == /\ ost = "ended" \/ sent[1] >= MaxPerSrc \/ blk # 0
                /\ \A j \in Inner : ist[j] \notin {"live", "torn"} \/ sent[Src(j)] >= MaxPerSrc
-Done == phase = "run" /\ (Len(h) = MaxSteps + 1 \/ (NothingLeft /\ (~Cuts \/ unsub)))
+Done == phase = "run" /\ ~SyncPending /\ (Len(h) = MaxSteps + 1 \/ (NothingLeft /\ (~Cuts \/ unsub)))
 
 (* ------------------------------ properties ----------------------------- *)
 Grammar == \A x \in 1..Len(log) : x < Len(log) => log[x].k = "N"
@@ -173,5 +196,5 @@ ConcatOneAtATime == Concat => Cardinality(LiveIn) <= 1
 CollectFirst == (Collecting /\ ost = "live" /\ ~closed) => LiveIn = {}
 TypeOK == blk \in 0..MaxInner /\ intro \in 0..MaxInner /\ (blk # 0 => ist[blk] = "live")
 
-EmitCase == Done => PrintT(ToJson([m |-> m, steps |-> h, tail |-> tail]))
+EmitCase == Done => PrintT(ToJson([m |-> m, steps |-> h, tail |-> tail, isync |-> sync]))
 =============================================================================
